@@ -213,22 +213,22 @@ func runRegCoupd(c *core.Ctx) {
 	del := a.del
 	okClean := false
 	var cpos token.Pos
-	an.Instrs(del, func(in ssa.Instruction) {
-		call, ok := in.(*ssa.Call)
+	an.Region(del, a.stop, func(o an.Occ) {
+		call, ok := o.In.(*ssa.Call)
 		if !ok {
 			return
 		}
 		b, ok := call.Call.Value.(*ssa.Builtin)
-		if !ok || b.Name() != "delete" || !strings.Contains(an.PathOf(call.Call.Args[0]), ".deleted") {
+		if !ok || b.Name() != "delete" || !strings.Contains(o.Path(call.Call.Args[0]), ".deleted") {
 			return
 		}
-		ev, g := kind5Guard(del, call.Block())
+		ev, g := kind5Guard(del, o.Block())
 		if !g {
 			return
 		}
-		cpos = call.Pos()
+		cpos = o.Site().Pos()
 		// entry removed is keyed by the victim's own pubkey; id removed is the victim's ID
-		p0, p1 := an.PathOf(call.Call.Args[0]), an.PathOf(call.Call.Args[1])
+		p0, p1 := o.Path(call.Call.Args[0]), o.Path(call.Call.Args[1])
 		if strings.Contains(p0, "Pubkey="+ev+".Pubkey") && p1 == ev+".ID" {
 			okClean = true
 		}
@@ -306,8 +306,8 @@ func runKeyDom(c *core.Ctx) {
 	}
 	var keys []string
 	raw, viaIndex := false, false
-	for _, call := range callsTo(delRef, a.del) {
-		k := an.PathOf(call.Call.Args[1])
+	for _, o := range occCallsTo(delRef, a.del, a.stop) {
+		k := occArg(o, 1)
 		keys = append(keys, k)
 		if strings.Contains(k, an.FuncFullName(a.keyFn)) && strings.Contains(k, ".idx[") && strings.Contains(k, fmt.Sprintf("What=const:%d", idConst)) {
 			viaIndex = true
